@@ -14,16 +14,28 @@ if not os.path.exists(out + "/patch.diff"):
 seeder = json.load(open(out + "/seeder_meta.json")) if os.path.exists(out + "/seeder_meta.json") else {}
 ran = []
 caught_by = {}
-def ev(ids, seed, tier="quick", args=""):
+def _run(patch, ids, seed, tier, args):
     env = dict(os.environ, VERIF_SEED=str(seed), SEEDEVAL_TIER=tier, SEEDEVAL_ARGS=args)
-    r = subprocess.run(["/verif/tools/seedeval.sh", out + "/patch.diff"] + ids, capture_output=True, text=True, env=env)
+    r = subprocess.run(["/verif/tools/seedeval.sh", patch] + ids, capture_output=True, text=True, env=env)
+    res = {}
     for blk in re.split(r"(?m)^(?=== )", r.stdout):
         m = re.match(r"== (\S+) exit=(\d+) :: (.*)", blk)
         if not m: continue
-        pid, code = m.group(1), int(m.group(2))
-        sigs = re.findall(r"(?m)^\s+(C\d\d\|[^ ]+)", blk)
-        ran.append({"check": pid, "tier": tier, "seed": seed, "args": args, "exit": code, "violations": sigs[:4], "summary": m.group(3)[:100]})
-        caught_by.setdefault(pid, []).append(code == 1)
+        res[m.group(1)] = (int(m.group(2)), re.findall(r"(?m)^\s+(C\d\d\|[^ ]+)", blk), m.group(3)[:100])
+    return res
+def ev(ids, seed, tier="quick", args=""):
+    """caught = the check exits 1 AND reports a violation signature that the SAME run on the unchanged tree does not report"""
+    mut = _run(out + "/patch.diff", ids, seed, tier, args)
+    need_base = [i for i in ids if mut.get(i, (0,))[0] == 1]
+    base = _run("NONE", need_base, seed, tier, args) if need_base else {}
+    for pid in ids:
+        if pid not in mut: continue
+        code, sigs, summ = mut[pid]
+        bsigs = base.get(pid, (0, [], ""))[1]
+        new = [x for x in sigs if x not in bsigs]
+        ok = code == 1 and bool(new)
+        ran.append({"check": pid, "tier": tier, "seed": seed, "args": args, "exit": code, "violations": new[:4], "also_on_unchanged_tree": [x for x in sigs if x in bsigs][:4], "summary": summ})
+        caught_by.setdefault(pid, []).append(ok)
 for seed in (1, 2):
     ev([prop] + extra, seed)
 if not any(caught_by.get(prop, [])):
